@@ -195,7 +195,9 @@ def step (s : Sys) : Ev → Outcome
   | .callBegin k => if s.scopes.has k then .disabled "call id in use" else .ok { s with scopes := s.scopes.put k () }
   | .callEnd k =>
       if !s.scopes.has k then .disabled "no such call"
-      -- control flow of the glue: the `handle_decls` temporaries go out of scope before it returns
+      -- MODELLING ASSUMPTION (control flow of the glue, Rust scoping): the `handle_decls` temporaries go out of
+      -- scope before the export returns, so `callEnd` is not a possible event while one is alive; validated on
+      -- real runs by trace acceptance (a real return with a live temporary would be `disabled` = rejected)
       else if hasTempOf s.cells k then .disabled "the glue has not dropped its temporaries yet"
       else if hasBorrowOf s.table k then .trap "borrow handle still present when the export returns"
       else .ok { s with scopes := s.scopes.del k }
